@@ -40,6 +40,8 @@ def pkg_dir(demo_text):
         return "cmd/sandbox" if "cmd/sandbox" in demo_text else "cmd/seccomp-profiler"
     if pkg.startswith("unix"):
         return "internal/unix"
+    if re.match(r"^c\d\ddemo\d*$", pkg):
+        return pkg        # a package of its own inside the module (new directory)
     return "."
 
 
@@ -62,6 +64,7 @@ def main():
         tags = ["-tags", "verif"] if "verif" in demo_text else []
         if "go test -race" in demo_text:
             tags.append("-race")
+        os.makedirs(os.path.join(wt, d), exist_ok=True)
         dst = os.path.join(wt, d, "zz_seed_demo_test.go")
         shutil.copy(demo, dst)
         tests = re.findall(r"^func (Test\w+)\(", demo_text, re.M)
